@@ -1589,7 +1589,7 @@ package gkvlite
 //@   modifies rootNodeLoc.refs, rootNodeLoc.root, rootNodeLoc.next, rootNodeLoc.chainedCollection, rootNodeLoc.chainedRootNodeLoc, node.numNodes, node.numBytes, node.next, itemLoc.loc, itemLoc.item, nodeLoc.loc, nodeLoc.node, nodeLoc.next, mem.ptr, G.freeNodes, G.freeNodeLocs, G.freeRootNodeLocs, AllocStats.CurFreeNodes, AllocStats.FreeNodes, AllocStats.CurFreeNodeLocs, AllocStats.FreeNodeLocs, AllocStats.CurFreeRootNodeLocs, AllocStats.FreeRootNodeLocs, ghost net, ghost tvs, t.store.nodeAllocs, new ploc.Offset, new ploc.Length, new node.numNodes, new node.numBytes, new node.next, new itemLoc.loc, new itemLoc.item, new nodeLoc.loc, new nodeLoc.node, new nodeLoc.next, new Item.Key, new Item.Val, new Item.Priority, new Item.Transient, new mem.byte, ghost io.fails, ghost io.reads, ghost io.valbytes, ghost src, cell.Int, ghost orphans, ghost vis.n, ghost vis.key, ghost vis.item, ghost vis.depth, ghost vis.hasval, ghost vis.stop
 //@   ensures [C07] E1: io.fails >= old(io.fails) && (io.fails > old(io.fails) ==> err != nil)
 //@   after entry sets vis.stop := false
-//@   after (*Collection).VisitItemsAscendEx.0 asserts [C16] the-counting-visitor-kept-its-invariant: callresult == nil ==> vinv(visitor, 0 - old(vis.n))
+//@   after (*Collection).VisitItemsAscendEx.0 asserts [C16] the-counting-visitor-kept-its-invariant: callresult == nil ==> vinv(closure("Len$1"), 0 - old(vis.n))
 //@   after (*Collection).VisitItemsAscendEx.0 asserts [C16] the-log-enumerates-the-collection: callresult == nil ==> enumerates(vis.key, old(vis.n), vis.n, old(tvs)[old(t.root.root)])
 //@   ensures [C16] length-is-the-number-of-items: err == nil ==> l == cnt(old(tvs)[old(t.root.root)])
 //@   ensures [C16] empty-collection-has-length-zero: err == nil && isLeaf(old(tvs)[old(t.root.root)]) ==> l == 0
